@@ -116,6 +116,25 @@ pub fn parse(l: &Lexed) -> PResult<File> {
                 return c.fail(true, "expected `;` after const");
             }
             if is_fn {
+                // the helper bodies are expressions and statements of plain JavaScript: an operator needs an operand on
+                // both sides, and `()` is an operand only as a parameter list (`() =>`) or an argument list (`f()`)
+                let binary = |t: &crate::lex::Tok| t.kind == TokKind::Punct && matches!(t.text.as_str(), "&&" | "||" | "===" | "!==" | "==" | "!=" | "<=" | ">=");
+                for (i, w) in text.windows(2).enumerate() {
+                    let (a, b) = (w[0], w[1]);
+                    if a.kind == TokKind::Punct && a.text == "(" && b.kind == TokKind::Punct && b.text == ")" {
+                        let before_is_operand = i > 0 && (text[i - 1].kind == TokKind::Ident || (text[i - 1].kind == TokKind::Punct && matches!(text[i - 1].text.as_str(), ")" | "]")));
+                        let arrow_follows = text.get(i + 2).map(|t| t.kind == TokKind::Punct && (t.text == "=>" || t.text == ":")).unwrap_or(false);
+                        if !before_is_operand && !arrow_follows {
+                            return c.fail(true, "empty parenthesised expression `()` in a helper body");
+                        }
+                    }
+                    if binary(a) && (binary(b) || (b.kind == TokKind::Punct && matches!(b.text.as_str(), ")" | "]" | "}" | ";" | ","))) {
+                        return c.fail(true, "operator without a right operand in a helper body");
+                    }
+                    if binary(b) && a.kind == TokKind::Punct && matches!(a.text.as_str(), "(" | "[" | "{" | ";" | ",") {
+                        return c.fail(true, "operator without a left operand in a helper body");
+                    }
+                }
                 d.kind = DefKind::Helper;
                 // record `key === "x"` tests
                 for w in text.windows(3) {
